@@ -326,7 +326,10 @@ func adjustImports(ps *pkgSrc, file string, newTexts [][]byte) (*pkgSrc, []types
 			return cur, nil, log
 		}
 		fset := token.NewFileSet()
-		f, err := parser.ParseFile(fset, file, cur.files[file], parser.ParseComments)
+		// comments are dropped: the adjusted file only has to type-check (and
+		// compile), and astutil's import editing is fragile around comments
+		// that sit on import lines
+		f, err := parser.ParseFile(fset, file, cur.files[file], 0)
 		if err != nil {
 			return cur, errs, log
 		}
